@@ -62,10 +62,16 @@ func dataMsg(seq uint32) *entities.Message {
 	ie1, _ := registry.GetInfoElement("sourceTransportPort", 0)
 	ie2, _ := registry.GetInfoElement("octetDeltaCount", 0)
 	ie3, _ := registry.GetInfoElement("sourcePodName", registry.AntreaEnterpriseID)
+	ie4, _ := registry.GetInfoElement("samplingProbability", 0)
+	ie5, _ := registry.GetInfoElement("dataRecordsReliability", 0)
+	ie6, _ := registry.GetInfoElement("sourceIPv4Address", 0)
 	set.AddRecord([]entities.InfoElementWithValue{
 		entities.NewUnsigned16InfoElement(ie1, 4242),
 		entities.NewUnsigned64InfoElement(ie2, 123456789),
 		entities.NewStringInfoElement(ie3, "pod-x"),
+		entities.NewFloat64InfoElement(ie4, 1.25e-07),
+		entities.NewBoolInfoElement(ie5, true),
+		entities.NewIPAddressInfoElement(ie6, []byte{10, 1, 2, 3}),
 	}, 256)
 	m := entities.NewMessage(true)
 	m.SetVersion(10)
@@ -110,7 +116,8 @@ func Check_Arrival() {
 		e := flowRecords[kept+a]
 		sx.Assert(contains(e, "Sequence No.: "+strconv.Itoa(1000+a)), "new-entry-not-last-in-arrival-order")
 		// every field of the record appears by element name and value (concrete values only: rendering is the host fmt)
-		sx.Assert(contains(e, "sourceTransportPort: 4242") && contains(e, "octetDeltaCount: 123456789") && contains(e, "sourcePodName: pod-x"), "field-missing-from-rendered-entry")
+		sx.Assert(contains(e, "sourceTransportPort: 4242") && contains(e, "octetDeltaCount: 123456789") && contains(e, "sourcePodName: pod-x") &&
+			contains(e, "samplingProbability: 1.25e-07") && contains(e, "dataRecordsReliability: true") && contains(e, "sourceIPv4Address: 10.1.2.3"), "field-missing-from-rendered-entry")
 	}
 	if L == maxFlowRecords {
 		sx.Reach("full-window")
@@ -126,7 +133,7 @@ func request(method, rawQuery string) *http.Request {
 func Check_Query() {
 	L := pickLen()
 	fill(L)
-	counts := []string{"", "0", "1", "2", strconv.Itoa(L - 1), strconv.Itoa(L), strconv.Itoa(L + 1), "5000", "-1", "abc"}
+	counts := []string{"", "0", "1", "2", strconv.Itoa(L - 1), strconv.Itoa(L), strconv.Itoa(L + 1), "5000", "-1", "abc", "-99999999999999999999", "99999999999999999999"}
 	cs := counts[sx.Choose("count", len(counts))]
 	formats := []string{"", "json", "text", "xml"}
 	fs := formats[sx.Choose("format", len(formats))]
@@ -149,7 +156,7 @@ func Check_Query() {
 	count := L
 	switch cs {
 	case "":
-	case "-1", "abc":
+	case "-1", "abc", "-99999999999999999999", "99999999999999999999":
 		invalid = true
 	default:
 		n, _ := strconv.Atoi(cs)
